@@ -157,15 +157,31 @@ def free_case(rnd):
     for _ in range(rnd.randint(2, 10)):
         a = rnd.choice(atts); nd = rnd.choice(nodes)
         a.compromise(nd); log.append(f'compromise {nd.name} by {kinds[atts.index(a)]}#{atts.index(a)}')
-    for j, a in enumerate(atts):
-        for nd in nodes:
-            got = query.is_node_traversable_by_attacker(nd, a)
-            if got != trav_ref(nd, a):
-                return f'is_node_traversable_by_attacker({nd.name}, attacker #{j} [{kinds[j]}, id {a.id}]) is {got}, its definition says {trav_ref(nd, a)}', {'kinds': kinds, 'log': log}
-        got = query.get_attack_surface(a)
-        if sorted(x.id for x in got) != surface_ref(a):
-            return f'attack surface of attacker #{j} [{kinds[j]}, id {a.id}] is not the set of traversable children of its reached steps', {'kinds': kinds, 'log': log}
-    return None, {'kinds': kinds, 'log': log}
+    def ask_all():
+        for j, a in enumerate(atts):
+            for nd in nodes:
+                got = query.is_node_traversable_by_attacker(nd, a)
+                if got != trav_ref(nd, a):
+                    return f'is_node_traversable_by_attacker({nd.name}, attacker #{j} [{kinds[j]}, id {a.id}]) is {got}, its definition says {trav_ref(nd, a)}'
+            got = query.get_attack_surface(a)
+            if sorted(x.id for x in got) != surface_ref(a):
+                return f'attack surface of attacker #{j} [{kinds[j]}, id {a.id}] is not the set of traversable children of its reached steps'
+        return None
+    bad = ask_all()
+    # the labels are state like any other: an analysis that runs again after the first round of queries (a defense was
+    # switched) relabels nodes while every parent list keeps its length; the answers must follow the labels as they
+    # are *now*, and a further compromise after that as well
+    for _ in range(rnd.randint(0, 2)):
+        if bad: break
+        for nd in rnd.sample(nodes, rnd.randint(1, len(nodes))):
+            if rnd.random() < 0.7: nd.is_necessary = not nd.is_necessary; log.append(f'relabel {nd.name}.is_necessary={nd.is_necessary}')
+            if rnd.random() < 0.3: nd.is_viable = not nd.is_viable; log.append(f'relabel {nd.name}.is_viable={nd.is_viable}')
+        if rnd.random() < 0.5:
+            a = rnd.choice(atts); nd = rnd.choice(nodes)
+            a.compromise(nd); log.append(f'compromise {nd.name} by {kinds[atts.index(a)]}#{atts.index(a)}')
+        bad = ask_all()
+        if bad: bad += ' (after the labels were changed between two rounds of queries)'
+    return bad, {'kinds': kinds, 'log': log}
 
 # ---- third scenario family: queries on generated graphs, before and after regeneration -----------------------
 def generated_case(rnd):
